@@ -248,16 +248,39 @@ def run_history(h, fresh_oracle=True):
     return {'outs': outs, 'fresh': fresh, 'mutations': mutations, 'final': final}
 
 
+class CaseTimeout(BaseException):
+    """a single history ran longer than the per-case limit (not an Exception, so that the broad
+    handlers around individual operations cannot swallow it)"""
+
+
+def _alarm(_sig, _frm):
+    raise CaseTimeout()
+
+
 def main():
+    import signal
     sys.setrecursionlimit(20000)
+    limit = float(os.environ.get('VERIF_CASE_TIMEOUT', '30'))
+    signal.signal(signal.SIGALRM, _alarm)
+    timeouts = 0
     for line in sys.stdin:
         line = line.strip()
         if not line:
             print('{}')
             continue
+        if timeouts >= 3:
+            print(json.dumps({'error': 'timeout: skipped after %d histories of this batch ran into the per-case limit' % timeouts}))
+            continue
         try:
             h = json.loads(line)
-            res = run_history(h, fresh_oracle=h.get('fresh_oracle', True))
+            signal.setitimer(signal.ITIMER_REAL, limit)
+            try:
+                res = run_history(h, fresh_oracle=h.get('fresh_oracle', True))
+            finally:
+                signal.setitimer(signal.ITIMER_REAL, 0)
+        except CaseTimeout:
+            timeouts += 1
+            res = {'error': 'timeout: the history did not finish within %.0f s (non-termination or unbounded growth)' % limit}
         except Exception as ex:  # noqa: BLE001
             res = {'error': '%s: %s' % (type(ex).__name__, str(ex)[:300])}
         print(json.dumps(res))
